@@ -123,3 +123,38 @@ theorem stack_inside (B : Rect) (s : Stack) (c : Call) (h : stackOk B s c) :
     exact absurd rfl (hs w hw)
 
 end EG
+
+namespace EG
+
+/-- The meaning of a call depends on the target's box only through `clear`, and there only
+through membership of the point. -/
+theorem Call.sem_box_irrelevant (T T' : Rect) (c : Call) (q : Pt) (hT : T.Ok) (hT' : T'.Ok)
+    (h : T.contains q = T'.contains q) : c.sem T q = c.sem T' q := by
+  cases c with
+  | clear col => rw [Call.sem_clear _ hT, Call.sem_clear _ hT', h]
+  | _ => rfl
+
+/-- `runNative` point-wise: inside the box the direct meaning of the history, nothing outside. -/
+theorem runNative_eq_runDirect (B : Rect) (calls : List Call) (q : Pt) :
+    runNative B calls q = if B.contains q = true then runDirect B calls q else none := by
+  unfold runNative runDirect
+  rw [PMap.empty_apply]
+  by_cases hB : B.contains q = true
+  · rw [if_pos hB]
+    have := lastWrite_flatMap_congr calls (Call.writesNative B) (Call.lowerNative B) (fun o => o)
+      (by intro x y; rfl) rfl q q
+      (by intro c _; unfold Call.writesNative; rw [lastWrite_clipWrites, if_pos hB])
+    exact this
+  · rw [if_neg hB]
+    have := lastWrite_flatMap_congr calls (Call.writesNative B) (Call.lowerNative B) (fun _ => none)
+      (by intro x y; rfl) rfl q q
+      (by intro c _; unfold Call.writesNative; rw [lastWrite_clipWrites, if_neg hB])
+    exact this
+
+theorem runDirect_box_irrelevant (T T' : Rect) (calls : List Call) (q : Pt) (hT : T.Ok) (hT' : T'.Ok)
+    (h : T.contains q = T'.contains q) : runDirect T calls q = runDirect T' calls q := by
+  unfold runDirect
+  exact lastWrite_flatMap_congr calls (Call.lowerNative T) (Call.lowerNative T') (fun o => o)
+    (by intro x y; rfl) rfl q q (by intro c _; exact Call.sem_box_irrelevant T T' c q hT hT' h)
+
+end EG
